@@ -24,6 +24,11 @@ const SimrtPath = "github.com/pointlander/peg/zzsim/simrt"
 const alias = "zzsimrt"
 
 type Options struct {
+	// StmtYields: besides function/closure entries and loop bodies, a yield
+	// is inserted before every statement that stands directly in a block or
+	// in a case clause (finer interleavings: two statements of one function
+	// can be separated by another task)
+	StmtYields bool
 	Yields     bool
 	MemoFaults bool
 	SyncTypes  bool
@@ -183,6 +188,35 @@ func (w *Weaver) weaveFile(fset *token.FileSet, f *ast.File, src []byte, rel str
 	usedSync, usedOS := false, false
 
 	var funcStack []string
+	// statement-level yields: before every statement of a block except the
+	// first one (the block's own entry yield, if any, covers it) and except
+	// declarations (a call between a label and a declaration or in front of a
+	// declaration that a goto jumps over changes nothing, but keep it simple)
+	stmtYields := func(list []ast.Stmt, lbrace token.Pos) {
+		if !opt.StmtYields || !opt.Yields {
+			return
+		}
+		fn := ""
+		if len(funcStack) > 0 {
+			fn = funcStack[len(funcStack)-1]
+		}
+		for i, st := range list {
+			if i == 0 && lbrace != token.NoPos {
+				continue
+			}
+			switch x := st.(type) {
+			case *ast.DeclStmt, *ast.EmptyStmt, *ast.CaseClause, *ast.CommClause:
+				continue
+			case *ast.BranchStmt:
+				if x.Tok == token.FALLTHROUGH {
+					continue
+				}
+			}
+			pos := st.Pos()
+			id := newSite(pos, "stmt", fn)
+			add(off(pos), 0, fmt.Sprintf("%s.Yield(%d); ", alias, id))
+		}
+	}
 	var declaresMemoization []bool
 	var visit func(n ast.Node) bool
 	visit = func(n ast.Node) bool {
@@ -215,6 +249,12 @@ func (w *Weaver) weaveFile(fset *token.FileSet, f *ast.File, src []byte, rel str
 			funcStack = funcStack[:len(funcStack)-1]
 			declaresMemoization = declaresMemoization[:len(declaresMemoization)-1]
 			return false
+		case *ast.BlockStmt:
+			stmtYields(x.List, x.Lbrace)
+		case *ast.CaseClause:
+			stmtYields(x.Body, token.NoPos)
+		case *ast.CommClause:
+			stmtYields(x.Body, token.NoPos)
 		case *ast.FuncLit:
 			fn := ""
 			if len(funcStack) > 0 {
@@ -281,7 +321,7 @@ func (w *Weaver) weaveFile(fset *token.FileSet, f *ast.File, src []byte, rel str
 			if id, ok := x.X.(*ast.Ident); ok {
 				if opt.SyncTypes && hasSync && id.Name == syncName {
 					switch x.Sel.Name {
-					case "Mutex", "RWMutex", "Once":
+					case "Mutex", "RWMutex", "Once", "Pool":
 						add(off(x.Pos()), off(x.End())-off(x.Pos()), alias+"."+x.Sel.Name)
 						w.Stats.SyncReplaced++
 						usedSync = true
